@@ -34,6 +34,26 @@ for f in sorted(glob.glob(os.path.join(here, "seeded", "*", "meta.json"))):
     if m.get("strengthened"):
         how += "; " + m["strengthened"]
     out.append(f"| {name} | {m['summary'][:260].replace('|','/')} Needs: {str(m.get('needs',''))[:200].replace('|','/')} | {'yes' if det else 'NO'} | {how} |")
+# per-property status from cfg + last evidence
+import sys
+sys.path.insert(0, here)
+from checkcfg import PROPS, CLAIMED, NOT_APPLICABLE
+out += ["", "Per-property status (from `cfg/Cnn.py` and the last committed `evidence/Cnn.json`):", "",
+        "| id | claimed | theorems (discharged/obligations) | last quick run: cases, streams | what stays partial (from cfg) |", "|---|---|---|---|---|"]
+ids = [json.loads(l)["id"] for l in open(os.path.join(here, "properties.jsonl")) if l.strip()]
+for pid in ids:
+    if pid not in PROPS:
+        out.append(f"| {pid} | no | — | — | {NOT_APPLICABLE.get(pid, '')[:200]} |")
+        continue
+    c = PROPS[pid]
+    try:
+        e = json.load(open(os.path.join(here, "evidence", pid + ".json")))["coverage"]
+        ob = f"{e.get('discharged')}/{e.get('obligations')}"
+        st = f"{e.get('evaluations')} cases; " + ", ".join(f"{k} {v}" for k, v in sorted(e.get("streams", {}).items()))[:300]
+    except Exception:
+        ob, st = "?", "?"
+    part = "; ".join(str(x) for x in c.get("partial", []))[:700].replace("|", "/").replace("\n", " ")
+    out.append(f"| {pid} | {'yes' if pid in CLAIMED else 'no'} | {ob} | {st} | {part} |")
 out += ["", "<!-- END GENERATED TABLES -->"]
 p = os.path.join(here, "DESIGN.md")
 s = open(p).read()
